@@ -201,7 +201,8 @@ def resolve(model: RefDir, op):
         return {'a': 'derived_type', 'name': f'D{n}', 'items': items,
                 'style': r[11] % 3, 'ref_sym': ref_sym, 'auto_ref': all_ref
                 and ref_sym is None, 'quantum': quantum, 'expect': expect,
-                'dup_dim': expect == 'reject'}
+                'dup_dim': expect == 'reject',
+                **({'bad': 'dup_dimension'} if expect == 'reject' else {})}
     if kind == 'scaled_unit':
         tn = _pick(model.types_with_ref(), r[0])
         if tn is None:
@@ -239,8 +240,11 @@ def resolve(model: RefDir, op):
             expect = 'reject'
         if model.types[target]['quantum'] is not None:
             k = None
-        return {'a': 'term_unit', 'type': target, 'sym': f'u{n}',
-                'items': items, 'k': k, 'expect': expect}
+        act = {'a': 'term_unit', 'type': target, 'sym': f'u{n}',
+               'items': items, 'k': k, 'expect': expect}
+        if expect == 'reject':
+            act['bad'] = 'wrong_dimension'
+        return act
     if kind in ('derive_unit', 'derive_bad'):
         cands = [tn for tn in types if not model.types[tn]['base']]
         tn = _pick(cands, r[0])
